@@ -26,6 +26,19 @@ from .macro import Macro, FunctionMacro
 from .nodes import types, expressions
 
 
+def c_div(x, y):
+    """Integer division as in C: truncate toward zero."""
+    q = abs(x) // abs(y)
+    if (x < 0) != (y < 0):
+        q = -q
+    return q
+
+
+def c_rem(x, y):
+    """Integer remainder as in C: (x / y) * y + x % y == x."""
+    return x - y * c_div(x, y)
+
+
 class CPreProcessor:
     """A pre-processor for C source code"""
 
@@ -956,8 +969,8 @@ class CPreProcessor:
 
     OP_MAP = {
         "*": (11, False, operator.mul),
-        "/": (11, False, operator.floordiv),
-        "%": (11, False, operator.mod),
+        "/": (11, False, c_div),
+        "%": (11, False, c_rem),
         "+": (10, False, operator.add),
         "-": (10, False, operator.sub),
         "<<": (9, False, operator.lshift),
